@@ -796,13 +796,51 @@ func c18DisableScope(c *Ctx, pk *packages.Package) {
 		ast.Inspect(fr.Decl.Body, func(n ast.Node) bool {
 			switch x := n.(type) {
 			case *ast.RangeStmt:
-				if !isDisablesCall(x.X) {
+				src := ast.Expr(x.X)
+				// `all := config.Disables(); for _, d := range all`
+				if o := identObj(info, src); o != nil {
+					ast.Inspect(fr.Decl.Body, func(m ast.Node) bool {
+						if as, ok := m.(*ast.AssignStmt); ok && len(as.Lhs) == 1 && len(as.Rhs) == 1 && identObj(info, as.Lhs[0]) == o {
+							src = as.Rhs[0]
+						}
+						return true
+					})
+				}
+				if !isDisablesCall(src) {
 					return true
 				}
 				found++
-				evalAll(fr.Decl.Name.Name+"/range-disables", x.Pos(), "file", func(atom func(ast.Expr) (tri, bool)) bfOutcome {
+				// which kind of option does this consumer decide for? the one it compares with something other
+				// than the Unspecified constant (a loop that filters into a slice qualifies an element by appending it)
+				side := "file"
+				deepInspect(p, &FuncRef{Pkg: pk, Decl: &ast.FuncDecl{Name: fr.Decl.Name, Type: fr.Decl.Type, Body: x.Body}}, 2, func(m ast.Node, _ *types.Info) bool {
+					if be, ok := m.(*ast.BinaryExpr); ok && (be.Op == token.EQL || be.Op == token.NEQ) {
+						for _, pair := range [][2]ast.Expr{{be.X, be.Y}, {be.Y, be.X}} {
+							if call, ok := ast.Unparen(pair[0]).(*ast.CallExpr); ok {
+								if sel, ok := ast.Unparen(call.Fun).(*ast.SelectorExpr); ok && sel.Sel.Name == "FieldOption" {
+									if id := lastIdent(pair[1]); id != nil {
+										if cst, ok := info.Uses[id].(*types.Const); ok && !strings.HasSuffix(cst.Name(), "Unspecified") {
+											side = "field"
+										}
+									}
+								}
+							}
+						}
+					}
+					return true
+				})
+				bfOnAssign = func(as *ast.AssignStmt) (bool, tri) {
+					if len(as.Rhs) == 1 {
+						if call, ok := ast.Unparen(as.Rhs[0]).(*ast.CallExpr); ok && exprString(call.Fun) == "append" {
+							return true, triTrue
+						}
+					}
+					return false, triUnknown
+				}
+				evalAll(fr.Decl.Name.Name+"/range-disables", x.Pos(), side, func(atom func(ast.Expr) (tri, bool)) bfOutcome {
 					return bfEvalLoopBody(info, x.Body, triFalse, atom)
 				})
+				bfOnAssign = nil
 			case *ast.CallExpr:
 				if len(x.Args) != 2 || !isDisablesCall(x.Args[0]) {
 					return true
